@@ -297,8 +297,8 @@ def runHistory (inp out : Json) : Json := Id.run do
     let c := parseCtx (jget s "ctx")
     let model := invoke e c
     let real := parseResult r
-    let opaque := jbool ((jarr inp "table").getD (jnat s "e") Json.null) "opaque"
-    if !opaque && !sameInvoked model real then
+    let noModel := jbool ((jarr inp "table").getD (jnat s "e") Json.null) "opaque"
+    if !noModel && !sameInvoked model real then
       diffs := diffs ++ [s!"step {k}: model {showInvoked model} real {match real with | some x => showInvoked x | none => "PANIC"}"]
     k := k + 1
   -- C08 oracle on the real results alone: the same (expression, Context) gives the same result every time
